@@ -21,3 +21,15 @@ package gitlab
 //@ func StateEvent.Kind
 //@   props C16
 //@   nopanic
+
+// The paging goroutines: an API error must not crash the importer (the response is nil on transport errors).
+//@ func Notes$1
+//@ func LabelEvents$1
+//@ func StateEvents$1
+//@   props C16
+//@   nopanic
+//@   requires client != nil && issue != nil
+//@ func Issues$1
+//@   props C16
+//@   nopanic
+//@   requires client != nil
